@@ -17,6 +17,7 @@ RENAMES = {
     'from_be_bytes': 'shim_from_be_bytes', 'from_le_bytes': 'shim_from_le_bytes',
     'from_ne_bytes': 'shim_from_ne_bytes',
     'try_into': 'shim_try_into',
+    'try_from': 'shim_try_from',
 }
 # renames that apply only when the previous tokens are `<int type> ::`
 INT_ASSOC = {'from_be_bytes', 'from_le_bytes', 'from_ne_bytes'}
